@@ -43,6 +43,9 @@ Check (C19_ghost_ownership : forall parse_o emit_o h,
   gh_faults gh = []
   /\ forall b, (b < gh_next gh)%N ->
        is_freed b gh = true \/ exists t gt, g_find t (gh_tasks gh) = Some gt /\ In b (ids gt)).
+Check (C19_ghost_exit_frees_all : forall parse_o emit_o h,
+  let gh := g_exit (grun 0 parse_o emit_o init_state ghost_init h) in
+  gh_faults gh = [] /\ forall b, (b < gh_next gh)%N -> is_freed b gh = true).
 Check (C19_ghost_needs_exact_capacity :
   gh_faults (grun 1 (fun _ => POk []) (fun _ _ => EOk []) init_state ghost_init
                   [Initiate (s "/p/a.graphql") (s "query A { a }"); Free 1]) = [BadFree 0]).
@@ -65,6 +68,7 @@ Print Assumptions C19_model_meets_spec_modulo_oracle_traps.
 Print Assumptions C19_isolation.
 Print Assumptions C19_emit_equals_fresh.
 Print Assumptions C19_ghost_ownership.
+Print Assumptions C19_ghost_exit_frees_all.
 Print Assumptions C19_ghost_needs_exact_capacity.
 Print Assumptions C19_emit_trap_refuted.
 Print Assumptions C19_parse_trap_refuted.
